@@ -1006,6 +1006,18 @@ func checkModuleGenesisGlue(p *Prog, r *Report, kp func(string, string) string, 
 			r.Check(ok, kp("MUSTCALL", mod+".AppModule.InitGenesis→InitGenesis"), "the module's InitGenesis hands the decoded genesis state to the import on every path that returns", p.FnPos(ig),
 				"the import call dominates every return", "AppModule.InitGenesis can return (at "+at+") without having run the import: a genesis file whose state it judges empty is skipped whole — the entries it does hold are gone after the restart")
 		}
+		// … nor hands its address to a method of the module that rewrites it (a "sanitising" pass between decode and import)
+		for _, cs := range callSites(ig) {
+			g := cs.Callee
+			if g == nil || !InModule(g) || g.Signature.Recv() == nil || len(cs.Instr.Common().Args) == 0 {
+				continue
+			}
+			if al, isAl := cs.Instr.Common().Args[0].(*ssa.Alloc); isAl && mutatesReceiver(resolveBound(g), 0) {
+				_ = al
+				r.Fail(kp("ORIGIN", mod+".AppModule.InitGenesis#state-passed-on-unchanged"), "the module glue passes the genesis state on as it was decoded", p.Pos(cs.Instr.Pos()),
+					"AppModule.InitGenesis calls "+FuncName(g)+" on the decoded state, which rewrites it, before the import: what is imported is not what the file says (entries dropped or merged by the rewrite are gone after a restart from the export)")
+			}
+		}
 		if at, bad := writesThroughState(ig); bad {
 			r.Fail(kp("ORIGIN", mod+".AppModule.InitGenesis#state-passed-on-unchanged"), "the module glue passes the genesis state on as it was decoded", at, "AppModule.InitGenesis assigns to a field, element or map entry before the import: what is imported is not what the file says")
 		} else {
